@@ -53,7 +53,8 @@ def order_violation(x, out, slack=0.0):
 
 
 def scale_of(*arrs):
-    m = 1.0
+    """largest magnitude present (no floor: precipitation fluxes in kg m-2 s-1 are ~1e-5 … 1e-9)"""
+    m = 0.0
     for a in arrs:
         a = np.asarray(a, dtype=float)
         a = a[np.isfinite(a)]
@@ -77,6 +78,21 @@ def pr_like(nprs, n, dry, scale, ties, grid=0.1):
     x = np.where(wet, nprs.gamma(0.8, scale, n), 0.0)
     if ties:
         x = np.where(wet, np.maximum(grid, np.round(x / grid) * grid), 0.0)
+    return x
+
+
+def pr_flux(nprs, n, dry, drizzle, unit, shape=0.85, mean_mm=4.0):
+    """precipitation as a flux: `unit` = one mm/day in the data's units (1/86400 for kg m-2 s-1, smaller for other unit systems);
+    a fraction `dry` of exact zeros, a fraction `drizzle` of DISTINCT tiny positive values (numerical drizzle, in SI units
+    below 1e-8 — positive, hence not "zero values" for any randomisation), the rest gamma amounts"""
+    x = nprs.gamma(shape, mean_mm / shape, n) * unit
+    u = nprs.random(n)
+    x[u < dry] = 0.0
+    dz = (u >= dry) & (u < dry + drizzle)
+    x[dz] = np.sort(nprs.uniform(1e-4, 9e-4, dz.sum()))[nprs.permutation(dz.sum())] * unit  # 0.0001 … 0.0009 mm/day
+    if (x > 0).sum() < 6:
+        k = nprs.choice(n, 6, replace=False)
+        x[k] = nprs.gamma(shape, mean_mm / shape, 6) * unit
     return x
 
 
@@ -128,6 +144,16 @@ def make_case(kind, params, seed):
     elif data == "pos":
         o, h, f = (np.abs(tas_like(nprs, n, 6, 2, ties)) + 0.25 for n in (nO, nH, nF))
         f = spice_future(nprs, f, h, lo_floor=0.01)
+    elif data == "prflux":
+        # flux magnitudes: obs wetter (fewer dry days, comparable mean) so that the lowest ranks map to distinct positive values
+        unit = float(nprs.choice([1 / 86400, 1e-1 / 86400, 1e-2 / 86400, 1e-4 / 86400]))
+        nO, nH, nF = (int(nprs.randint(150, 500)) for _ in range(3))
+        dry = float(nprs.uniform(0.15, 0.5))
+        dz = float(nprs.uniform(0.08, 0.25))
+        o = pr_flux(nprs, nO, float(nprs.uniform(0.0, 0.08)), 0.0, unit, 0.9, 3.0 * nprs.uniform(0.7, 1.5))
+        h = pr_flux(nprs, nH, dry, dz, unit, 0.8, 5.0)
+        f = pr_flux(nprs, nF, dry * nprs.uniform(0.8, 1.2), dz, unit, 0.8, 5.0 * nprs.uniform(0.8, 1.5))
+        params = {**params, "_unit": unit}
     else:  # pr
         dry = params.get("dry", None)
         dry = float(nprs.uniform(0.05, 0.95)) if dry is None else dry
@@ -152,7 +178,7 @@ def make_case(kind, params, seed):
             deb = QuantileMapping(distribution=dist, mapping_type="parametric", detrending=params["detrending"])
         elif kind == "QMpr":
             deb = QuantileMapping.for_precipitation(model_type=params["model"], detrending=params["detrending"],
-                                                    censoring_threshold=params.get("censoring_threshold", 0.1))
+                                                    censoring_threshold=censoring_threshold(params))
         elif kind == "QMnonparam":
             deb = QuantileMapping(distribution=None, mapping_type="nonparametric", detrending=params["detrending"])
         elif kind == "CDFt":
@@ -162,13 +188,19 @@ def make_case(kind, params, seed):
                 slack = 0.0
         else:
             raise ValueError(kind)
-    return deb, o, h, f, slack
+    return deb, o, h, f, slack, params
+
+
+def censoring_threshold(params):
+    """the censored model's threshold in the data's units (0.35 mm/day for the flux data)"""
+    thr = params.get("censoring_threshold", 0.1)
+    return thr * params["_unit"] if "_unit" in params else thr
 
 
 def run_case(kind, params, seed):
     """returns (problem | None, info).  problem = dict(i, j, xi, xj, oi, oj)"""
     _quiet()
-    deb, o, h, f, slack = make_case(kind, params, seed)
+    deb, o, h, f, slack, params = make_case(kind, params, seed)
     np.random.seed(seed % (2**31 - 1))
     method = "_apply_debiasing_steps" if kind == "CDFt" else "apply_on_window"
     try:
@@ -182,7 +214,7 @@ def run_case(kind, params, seed):
             "outside": int(((f < h.min()) | (f > h.max())).sum())}
     if kind == "QMpr" and params["model"] == "censored":
         # what the theorem states for every draw: pairs with x_j >= thr (sub-threshold inputs collapsed to one tie class) …
-        thr = params["censoring_threshold"]
+        thr = censoring_threshold(params)
         v = order_violation(np.where(f < thr, -1.0, f), out, sl)
         if v is None:  # … and the F16 pairs: two distinct sub-threshold inputs
             sub = np.where(f < thr)[0]
@@ -196,21 +228,41 @@ def run_case(kind, params, seed):
     i, j = v
     prob = {"i": i, "j": j, "x_i": float(f[i]), "x_j": float(f[j]), "out_i": float(out[i]), "out_j": float(out[j]),
             "obs": o.tolist(), "cm_hist": h.tolist(), "cm_future": f.tolist(), "slack_abs": sl}
+    if "f16" in info:
+        prob["f16"] = info["f16"]
     return prob, info
 
 
 # ------------------------------------------------------------------ ISIMIP
 ISIMIP_VARS = ["pr", "tas", "hurs", "sfcwind", "tasskew"]
+TWO_SIDED = {"hurs": (0.0, 0.01, 99.99, 100.0), "tasskew": (0.0, 0.0001, 0.9999, 1.0), "prsnratio": (0.0, 0.0001, 0.9999, 1.0)}
 
 
-def isimip_data(var, nprs, n, role, dry):
-    """series in the variable's units; `role` shifts the distribution a little between obs / hist / future"""
+def isimip_data(var, nprs, n, role, dry, mode="normal"):
+    """series in the variable's units; `role` shifts the distribution a little between obs / hist / future.
+    mode "allbounds" (two-sided variables): every value lies beyond a threshold (all rain / all snow, saturated / bone dry),
+    so that the entries sent to the lower and to the upper bound add up to the window size"""
     k = {"obs": 0, "hist": 1, "fut": 2}[role]
+    if mode == "allbounds":
+        lb, lt, ut, ub = TWO_SIDED[var]
+        p_up = [0.4, 0.5, 0.7][k] if dry is None else min(0.9, max(0.1, dry + 0.1 * k))
+        up = nprs.random(n) < p_up
+        if up.all() or not up.any():
+            up[0], up[-1] = True, False
+        x = np.where(up, ub, lb)
+        if nprs.random() < 0.5:  # not only the bounds themselves: distinct values between threshold and bound
+            j = nprs.choice(n, max(1, n // 5), replace=False)
+            x[j] = np.where(up[j], nprs.uniform(ut, ub, j.size), nprs.uniform(lb, lt, j.size))
+        return x
     if var == "pr":
         x = pr_like(nprs, n, min(0.95, max(0.03, dry + 0.05 * (k - 1))), (3.0 + 2 * k) / 86400, False)
-        if nprs.random() < 0.5:  # drizzle below the threshold 0.1/86400 and exact zeros
+        r = nprs.random()
+        if r < 0.35:  # drizzle below the threshold 0.1/86400 and exact zeros
             idx = nprs.choice(n, max(1, n // 8), replace=False)
             x[idx] = nprs.uniform(0, 0.1 / 86400, idx.size)
+        elif r < 0.7:  # numerical drizzle: distinct positive fluxes below 1e-8 kg m-2 s-1 next to exact zeros
+            idx = nprs.choice(n, max(2, n // 6), replace=False)
+            x[idx] = nprs.uniform(1e-9, 9e-9, idx.size)
         return x
     if var == "tas":
         return nprs.normal(283 + 2 * k, 3 + k, n)
@@ -240,14 +292,17 @@ def make_isimip(var, overrides):
         return ISIMIP.from_variable(var, **overrides)
 
 
-def run_isimip_case(var, overrides, stage, seed, dry=None):
+def run_isimip_case(var, overrides, stage, seed, dry=None, mode="normal"):
     """stage in {"step4", "step6", "window"}; returns (problem | None, info)"""
     _quiet()
     nprs = np.random.RandomState(seed)
-    dry = float(nprs.uniform(0.05, 0.95)) if dry is None else dry
+    if mode == "allbounds":
+        dry = None if dry is None else dry
+    else:
+        dry = float(nprs.uniform(0.05, 0.95)) if dry is None else dry
     nO, nH, nF = (int(nprs.randint(25, 120)) for _ in range(3))
-    o, h, f = isimip_data(var, nprs, nO, "obs", dry), isimip_data(var, nprs, nH, "hist", dry), isimip_data(var, nprs, nF, "fut", dry)
-    if nprs.random() < 0.5 and nF >= 8:  # ties among the future values
+    o, h, f = (isimip_data(var, nprs, n, role, dry, mode) for n, role in ((nO, "obs"), (nH, "hist"), (nF, "fut")))
+    if mode != "allbounds" and nprs.random() < 0.5 and nF >= 8:  # ties among the future values
         a = nprs.choice(nF, 4, replace=False)
         f[a[0]], f[a[2]] = f[a[1]], f[a[3]]
     deb = make_isimip(var, overrides)
@@ -303,12 +358,17 @@ def debiaser_cases(rng, tier, mult):
             cases.append(("QMpr", dict(model="hurdle", detrending=d, data="pr")))
         cases.append(("QMpr", dict(model="ignore_zeros", detrending="no_detrending", data="pr")))
         cases.append(("QMpr", dict(model="censored", detrending="no_detrending", data="pr", censoring_threshold=0.35)))
+        cases.append(("QMpr", dict(model="hurdle", detrending=rng.choice(["multiplicative", "no_detrending"]), data="prflux")))
+        cases.append(("QMpr", dict(model="censored", detrending="no_detrending", data="prflux", censoring_threshold=0.35)))
+        cases.append(("QMnonparam", dict(detrending="no_detrending", data="prflux")))
+        cases.append(("LS", dict(delta="multiplicative", data="prflux")))
     for _ in range(rep):
         for em in ECDF_METHODS:
             for im in IECDF_METHODS:
                 shift = rng.choice(["additive", "multiplicative", "no_shift"])
                 cases.append(("CDFt", dict(em=em, im=im, shift=shift, ssr=False, data="pos" if shift == "multiplicative" else "tas")))
                 cases.append(("CDFt", dict(em=em, im=im, shift=rng.choice(["additive", "multiplicative", "no_shift"]), ssr=True, data="pr")))
+                cases.append(("CDFt", dict(em=em, im=im, shift=rng.choice(["additive", "multiplicative", "no_shift"]), ssr=True, data="prflux")))
     return cases
 
 
@@ -332,7 +392,12 @@ def isimip_cases(rng, tier, mult):
                     if stage == "step4" and var == "tas":
                         continue
                     dry = rng.choice([0.05, 0.2, 0.5, 0.8, 0.95, None]) if var == "pr" else None
-                    cases.append((var, ov, stage, dry))
+                    cases.append((var, ov, stage, dry, "normal"))
+        # windows in which every value lies beyond a threshold: nothing is left between the bounds
+        for var in ("hurs", "tasskew", "prsnratio"):
+            for ov in ({}, {"nonparametric_qm": False}):
+                for stage in ("step6", "window"):
+                    cases.append((var, ov, stage, rng.choice([None, 0.2, 0.5]), "allbounds"))
     return cases
 
 
@@ -506,16 +571,14 @@ def run(tier, res, force_search=False):
                 continue
             case = {"what": name, "kind": kind, "params": params, "np_seed": seed, **prob}
             sig = {"what": name}
-            if kind == "QMpr" and params["model"] == "censored":
-                thr = params["censoring_threshold"]
-                if prob["x_i"] < thr and prob["x_j"] < thr:
-                    sig = dict(F16_SIGNATURE)
-                    f16_hits += 1
+            if kind == "QMpr" and params["model"] == "censored" and prob.get("f16"):
+                sig = dict(F16_SIGNATURE)
+                f16_hits += 1
             problems.append((f"{name}: x[{prob['i']}]={prob['x_i']!r} < x[{prob['j']}]={prob['x_j']!r} but out {prob['out_i']!r} > {prob['out_j']!r}", case, sig))
-    for var, ov, stage, dry in isimip_cases(rng, tier, mult):
+    for var, ov, stage, dry, mode in isimip_cases(rng, tier, mult):
         seed = rng.randint(0, 2**31 - 2)
-        prob, info = run_isimip_case(var, ov, stage, seed, dry)
-        name = f"ISIMIP/{var}/{stage}:" + ",".join(f"{k}={v}" for k, v in sorted(ov.items()))
+        prob, info = run_isimip_case(var, ov, stage, seed, dry, mode)
+        name = f"ISIMIP/{var}/{stage}{'/allbounds' if mode == 'allbounds' else ''}:" + ",".join(f"{k}={v}" for k, v in sorted(ov.items()))
         if "skipped" in info:
             skipped[f"ISIMIP/{var}:{info['skipped']}"] = skipped.get(f"ISIMIP/{var}:{info['skipped']}", 0) + 1
             continue
@@ -524,7 +587,7 @@ def run(tier, res, force_search=False):
                   sample={"config": name, **info} if len(res.cov["samples"]) < 6 else None)
         if prob is None:
             continue
-        case = {"what": name, "kind": "ISIMIP", "var": var, "overrides": ov, "stage": stage, "dry": dry, "np_seed": seed, **prob}
+        case = {"what": name, "kind": "ISIMIP", "var": var, "overrides": ov, "stage": stage, "dry": dry, "mode": mode, "np_seed": seed, **prob}
         problems.append((f"{name}: x[{prob['i']}]={prob['x_i']!r} < x[{prob['j']}]={prob['x_j']!r} but out {prob['out_i']!r} > {prob['out_j']!r}", case, {"what": name}))
     res.extra["oracle_cases"] = hist
     res.extra["oracle_skipped"] = skipped
@@ -552,7 +615,7 @@ def replay(data):
         print("replay: no failing input recorded (broken proof obligation / correspondence):", data.get("broken"))
         return 1
     if fi["kind"] == "ISIMIP":
-        prob, info = run_isimip_case(fi["var"], fi["overrides"], fi["stage"], fi["np_seed"], fi.get("dry"))
+        prob, info = run_isimip_case(fi["var"], fi["overrides"], fi["stage"], fi["np_seed"], fi.get("dry"), fi.get("mode", "normal"))
     else:
         prob, info = run_case(fi["kind"], fi["params"], fi["np_seed"])
     if prob is None:
